@@ -113,10 +113,10 @@ def deps_of(path):
     with open(path) as f:
         src = strip_comments(f.read())
     deps = []
-    for m in re.finditer(r'From\s+PJ\s+Require\s+(?:Import\s+|Export\s+)?((?:[A-Za-z0-9_.]+\s*)+)\.(?=\s)', src):
+    for m in re.finditer(r'From\s+PJ\s+Require\s+(?:Import\s+|Export\s+)?((?:[A-Za-z0-9_]+(?:\.[A-Za-z0-9_]+)*\s*)+)\.(?=\s)', src):
         for name in m.group(1).split():
             deps.append('PJ.' + name)
-    for m in re.finditer(r'(?<!From PJ )Require\s+(?:Import\s+|Export\s+)?((?:PJ\.[A-Za-z0-9_.]+\s*)+)\.(?=\s)', src):
+    for m in re.finditer(r'(?<!From PJ )Require\s+(?:Import\s+|Export\s+)?((?:PJ(?:\.[A-Za-z0-9_]+)+\s*)+)\.(?=\s)', src):
         for name in m.group(1).split():
             deps.append(name)
     return [d for d in deps if os.path.exists(path_of(d))]
